@@ -146,10 +146,11 @@ def run(repo: Repo) -> Result:
     if n_w < 20:
         raise AnchorMissing(f"only {n_w} output write sites found")
     # the translate tag's formatter
-    fm = repo.own_method("liquid.extra.tags.translate_tag.TranslateNode", "_format_message")
+    fm0 = repo.own_method("liquid.extra.tags.translate_tag.TranslateNode", "_format_message")
+    fm = _NF(fm0, _propagate(_copy.deepcopy(fm0.node)))
     res.ob(fm.qual, 2)
     t = text(fm.node)
-    if "to_liquid_string(context.resolve(k), autoescape=autoescape)" not in t or "return message_text % _vars" not in t or "autoescape = context.env.autoescape" not in t:
+    if "to_liquid_string(context.resolve(k), autoescape=context.env.autoescape)" not in t or "return message_text % _vars" not in t:
         res.add("C05-SINK", fm.qual, "format", "TranslateNode._format_message must interpolate to_liquid_string(..., autoescape=context.env.autoescape) values into the Markup message with %", fm.file, fm.line)
 
     # ---- C05-ESCAPE --------------------------------------------------------------
@@ -408,7 +409,8 @@ def run(repo: Repo) -> Result:
                             res.add("C05-REG", f.qual, f"unescaped-arg:{text(a)[:30]}", f"{f.qual}: `{text(call)[:60]}` receives `{text(a)[:40]}`", f.file, call.lineno)
 
         MustFlow(gen=gen, kill=kill, visit=visit).run(f.node)
-    bf = repo.own_method("liquid.extra.filters.translate.BaseTranslateFilter", "format_message")
+    bf0 = repo.own_method("liquid.extra.filters.translate.BaseTranslateFilter", "format_message")
+    bf = _NF(bf0, _propagate(_copy.deepcopy(bf0.node)))  # local aliases of context.env.autoescape / context.resolve propagated
     res.ob(bf.qual)
     if "to_liquid_string(context.resolve(k), autoescape=context.env.autoescape)" not in text(bf.node):
         res.add("C05-REG", bf.qual, "vars", "format_message must interpolate to_liquid_string(..., autoescape=context.env.autoescape) values", bf.file, bf.line)
